@@ -35,6 +35,8 @@ def run(ctx: Ctx):
     ready_constants(ctx, "C09-R2b")
     from .common_node import ready_state_stores
     ready_state_stores(ctx, "C09-R2c")
+    from .common_node import ready_substate_transitions_atomic
+    ready_substate_transitions_atomic(ctx, "C09-R2d")
 
     # ---------------- R3b removal drops the host's table; send_message cleanup -------------
     ctx.rule("C09-R3b", "remove_peer_connection drops the removed host's pending table; "
